@@ -85,14 +85,17 @@ func (x *systemGuardian) handlePostStart(ctx *ReceiveContext) {
 }
 
 func (x *systemGuardian) handlePanicSignal(ctx *ReceiveContext) {
-	systemName := x.system.Name()
+	// PanicSignal is a control message and can overtake PostStart (system
+	// mailbox first): take the system and logger from the context
+	system := ctx.ActorSystem()
+	systemName := system.Name()
 	actorName := ctx.Sender().Name()
-	if !x.system.isStopping() && isSystemName(actorName) {
-		if x.logger.Enabled(log.WarningLevel) {
-			x.logger.Warnf("actor=%s system=%s is down, going to shutdown. Check logs and fix any potential issue", actorName, systemName)
+	if !system.isStopping() && isSystemName(actorName) {
+		if logger := ctx.Logger(); logger.Enabled(log.WarningLevel) {
+			logger.Warnf("actor=%s system=%s is down, going to shutdown. Check logs and fix any potential issue", actorName, systemName)
 		}
 
 		// blindly shutdown the actor system. No need to check any error
-		_ = x.system.Stop(context.WithoutCancel(ctx.Context()))
+		_ = system.Stop(context.WithoutCancel(ctx.Context()))
 	}
 }
